@@ -30,7 +30,8 @@ RULE = ("cases = (abstract table of 0-8 rows x 0-4 features [thorough: 0-14 x 0-
         "positions incl. row 0; encoding dense tuple/list | sparse dict | scalar; simulated/logged/plain-dict interactions; "
         "shift in {numbers,min,mean,med,median}, scale in {numbers,minmax,std,iqr,maxabs}, stat in {mean,median,mode}, indicator, "
         "using in {None,1,<N,=N,>N}; reached through the filter, through Environments.scale/impute (incl. lists of statistics) "
-        "or with default arguments); sub-check 'grid' enumerates all 3-row single-feature tables over a small alphabet completely; "
+        "or with default arguments); sub-check 'reuse' runs one filter object (directly, or joined by Environments to 2-3 members) over "
+        "2-3 different tables; sub-check 'grid' enumerates all 3-row single-feature tables over a small alphabet completely; "
         "a case is non-trivial when a missing value lies in the fitting window and N > using, or a missing value sits in row 0; "
         "distinct = distinct canonical JSON of the case")
 ASSUMPTIONS = [
@@ -332,6 +333,66 @@ def run_impute(case):
     check_others(ins, snap, outs, "Impute")
     verify_impute(rows, enc, keys, [o["context"] for o in outs], stats[0], indicator, using, "Impute")
 
+# ------------------------------------------------------------------------------------------------ run: reuse (one filter object, several streams)
+def _chain_impute(t, ctxs, stats, indicator, using, ikind, what):
+    """the contexts a list of statistics must produce for one table: the single filters (fresh objects) applied in order,
+    every stage checked against the model"""
+    stage_in, tab, e, k = build_interactions(ctxs, ikind), t["rows"], t["enc"], t["keys"]
+    for st_ in stats:
+        stage_out = list(Impute(st_, indicator, using).filter(stage_in))
+        verify_impute(tab, e, k, [o["context"] for o in stage_out], st_, indicator, using, f"{what} stage Impute({st_!r})")
+        tab, e, k = abstract_of([o["context"] for o in stage_out], e, k)
+        stage_in = stage_out
+    return [o["context"] for o in stage_in]
+
+def _norm_ctx(c):
+    return dict(c) if isinstance(c, abc.Mapping) else (list(c) if is_seq(c) else c)
+
+def run_reuse(case):
+    """One Scale/Impute object over several different streams: every stream is fitted on its OWN window.
+    mode 'object': f.filter(A), f.filter(B), [f.filter(C)], f.filter(A) again.
+    mode 'envs'  : Environments(A, B[, C]).scale/impute(...) - Environments.filter joins one filter instance to every member -
+                   read in the generated order (a member may be read twice)."""
+    op, tables, ikind, using = case["op"], case["tables"], case.get("ikind", "sim"), case["using"]
+    ctxs = [[encode_row(r, t["enc"], t["keys"], t.get("box", "tuple")) for r in t["rows"]] for t in tables]
+    def verify(i, out_ctxs, what):
+        t = tables[i]
+        if op == "scale":
+            verify_scale(t["rows"], t["enc"], t["keys"], out_ctxs, case["shift"], case["scale"], using, what)
+        else:
+            stats = [case["stat"]] if isinstance(case["stat"], str) else list(case["stat"])
+            if len(stats) == 1:
+                verify_impute(t["rows"], t["enc"], t["keys"], out_ctxs, stats[0], case["indicator"], using, what)
+            else:
+                want = _chain_impute(t, ctxs[i], stats, case["indicator"], using, ikind, what)
+                require(len(out_ctxs) == len(want) and all(same(_norm_ctx(g), _norm_ctx(x)) for g, x in zip(out_ctxs, want)),
+                        f"{what}: not the statistics applied in order to this member's own data", stats=stats, table=t["rows"],
+                        got=[_norm_ctx(g) for g in out_ctxs], want=[_norm_ctx(x) for x in want])
+    if case["mode"] == "object":
+        f = Scale(case["shift"], case["scale"], "context", using) if op == "scale" else Impute(case["stat"], case["indicator"], using)
+        order = list(range(len(tables))) + ([0] if case.get("repeat", True) else [])
+        for step, i in enumerate(order):
+            ins = build_interactions(ctxs[i], ikind)
+            snap = [copy.deepcopy(dict(x)) for x in ins]
+            outs = list(f.filter(iter(ins) if case.get("iter") else ins))
+            what = f"{'Scale' if op == 'scale' else 'Impute'} object reused, call #{step + 1} (table {i})"
+            check_others(ins, snap, outs, what)
+            verify(i, [o["context"] for o in outs], what)
+        return
+    envs = Environments(*[ListEnv(build_interactions(c, ikind)) for c in ctxs])
+    if op == "scale":
+        envs = envs.scale(case["shift"], case["scale"], "context", using)
+    else:
+        envs = envs.impute(case["stat"], case["indicator"], using)
+    require(len(envs) == len(tables), "Environments.scale/impute must give one pipeline per environment", got=len(envs), want=len(tables))
+    members = list(envs)
+    for step, i in enumerate(case["order"]):
+        i = i % len(tables)
+        outs = list(members[i].read())
+        what = f"Environments({len(tables)} members).{op}: member {i}, read #{step + 1}"
+        check_finalized_others(read_env(Environments(ListEnv(build_interactions(ctxs[i], ikind)))), outs, what)
+        verify(i, [o["context"] for o in outs], what)
+
 # ------------------------------------------------------------------------------------------------ run: encodings (metamorphic)
 def num_same(a, b):
     if a is None or b is None: return a is None and b is None
@@ -528,6 +589,64 @@ def encoding_cases(draw, tier):
         case["indicator"] = draw(st.booleans())
     return case
 
+@st.composite
+def reuse_cases(draw, tier):
+    op = draw(st.sampled_from(["scale", "impute"]))
+    k = draw(st.sampled_from([2, 2, 3]))
+    kinds = ["num"] * 7 + ["str", "const", "allmiss"]
+    same_shape = draw(st.booleans())   # same encoding and width: the case where stale state goes unnoticed by shape errors
+    enc0 = draw(st.sampled_from(["dense", "dense", "sparse", "scalar"]))
+    tables, using = [], None
+    for i in range(k):
+        enc = enc0 if same_shape else draw(st.sampled_from(["dense", "dense", "sparse", "scalar"]))
+        rows, keys, u = draw_table(draw, tier, op, enc, kinds)
+        if i == 0: using = u
+        if same_shape and tables and enc != "scalar":
+            m = len(tables[0]["keys"])
+            if len(keys) != m:   # same number of features as the first table
+                n = len(rows)
+                w = window_len(n, using)
+                cols = [column(draw, n, w, op, enc, kinds) for _ in range(m)]
+                rows = [[cols[j][r] for j in range(m)] for r in range(n)]
+            keys = tables[0]["keys"]
+        tables.append({"rows": rows, "enc": enc, "keys": keys, "box": draw(st.sampled_from(["tuple", "list"]))})
+    case = {"op": op, "tables": tables, "using": using, "mode": draw(st.sampled_from(["object", "envs"])),
+            "ikind": draw(st.sampled_from(["sim", "sim", "log", "dict"]))}
+    if op == "scale":
+        sparse = any(t["enc"] == "sparse" for t in tables)
+        case["shift"] = draw(st.sampled_from([0, 0.0] if sparse else NUMBER_SHIFTS + NAMED_SHIFTS + NAMED_SHIFTS))
+        case["scale"] = draw(st.sampled_from(NUMBER_SCALES[:2] + NAMED_SCALES + NAMED_SCALES + NAMED_SCALES))
+    else:
+        case["stat"] = draw(st.sampled_from(STATS))
+        case["indicator"] = draw(st.booleans())
+    if case["mode"] == "object":
+        if draw(st.sampled_from([False, False, True])): case["iter"] = True
+    else:
+        case["order"] = draw(st.lists(st.integers(0, k - 1), min_size=k, max_size=k + 2).map(lambda o: o)) if draw(st.booleans()) else list(range(k)) + [0]
+        if op == "impute" and draw(st.sampled_from([False, False, True])):
+            case["stat"] = draw(st.lists(st.sampled_from(STATS), min_size=1, max_size=3))
+    return case
+
+def _has_stat_content(t, op):
+    return any(is_num(c) or (op == "impute" and is_str(c)) for r in t["rows"] for c in r)
+
+def nontrivial_reuse(case):
+    """at least two of the streams carry values and differ from each other (so stale state would be visible)"""
+    ts = [t for t in case["tables"] if _has_stat_content(t, case["op"])]
+    return len(ts) >= 2 and any(a["rows"] != b["rows"] for a, b in itertools.combinations(ts, 2))
+
+def classes_reuse(case):
+    out = [f"op={case['op']}", f"mode={case['mode']}", f"streams={len(case['tables'])}"]
+    encs = {t["enc"] for t in case["tables"]}
+    out.append("same-encoding" if len(encs) == 1 else "mixed-encodings")
+    if len({len(t["keys"]) for t in case["tables"]}) == 1 and len(encs) == 1: out.append("same-shape")
+    if case["op"] == "scale":
+        out.append("named-statistic" if isinstance(case["shift"], str) or isinstance(case["scale"], str) else "numbers-only")
+    elif not isinstance(case["stat"], str): out.append(f"stat-list{len(case['stat'])}")
+    if case["mode"] == "envs" and len(set(i % len(case["tables"]) for i in case["order"])) < len(case["order"]): out.append("member-read-twice")
+    if any(any(_missing(c, case["op"]) for c in t["rows"][0]) for t in case["tables"] if t["rows"]): out.append("missing-in-row0")
+    return out
+
 # ------------------------------------------------------------------------------------------------ grid (exhaustive)
 def grid(tier):
     usings = [None, 1, 2, 5]
@@ -637,6 +756,9 @@ SUBCHECKS = [
     Sub(name="encodings", run=run_encodings, strategy=encoding_cases, nontrivial=nontrivial, classes=classes, classify=classify,
         quick=2000, thorough=60000, quick_shards=2,
         what="metamorphic: dense, sparse (absent key = 0) and scalar encodings of one table give corresponding Scale/Impute results"),
+    Sub(name="reuse", run=run_reuse, strategy=reuse_cases, nontrivial=nontrivial_reuse, classes=classes_reuse, classify=classify,
+        quick=1500, thorough=50000, quick_shards=2,
+        what="one Scale/Impute object over 2-3 different tables in sequence (and the first again), and Environments(A,B[,C]).scale/impute (one filter instance joined to every member): every stream must equal the reference for its OWN table"),
     Sub(name="grid", run=run_any, enumerate=grid, nontrivial=nontrivial, classes=classes, classify=classify, exhaustive=True, quick_shards=2,
         what="complete enumeration: every 3-row single-feature table over {None,NaN,1,2.5,absent} x shift x scale x using (Scale) and {None,1,5,'A',absent} x stat x indicator x using (Impute), all encodings; thorough: 1-4 rows"),
 ]
